@@ -149,12 +149,15 @@ def judge_param_step(n, a, step, b):
     return None
 
 
-def judge_loop(n, lo, hi, off):
+def judge_loop(n, lo, hi, off, nested=False):
     cnt = hi - lo + 1
     txt = ("model M Real x[%d]; Real w[%d]; equation for i in %d:%d loop w[i - %d + 1] = x[i + %d]; end for; end M;"
            % (n, max(cnt, 1), lo, hi, lo, off)) if off else \
           ("model M Real x[%d]; Real w[%d]; equation for i in %d:%d loop w[i - %d + 1] = x[i]; end for; end M;"
            % (n, max(cnt, 1), lo, hi, lo))
+    if nested:
+        # the looped-over array is a member of a scalar component: a.x[i]
+        txt = txt.replace("model M Real x[%d];" % n, "model A Real x[%d]; end A; model M A a;" % n).replace("= x[", "= a.x[")
     want = [lo + off + j for j in range(cnt)]
     need_error = any(v < 1 or v > n for v in want)
     try:
@@ -164,7 +167,7 @@ def judge_loop(n, lo, hi, off):
         vals = {}
         for v in m.alg_states:
             shp = v.symbol.shape
-            vals[v.symbol.name()] = np.array([2.0 ** k for k in range(shp[0])]) if v.symbol.name() == "x" else np.zeros(shp[0])
+            vals[v.symbol.name()] = np.array([2.0 ** k for k in range(shp[0])]) if v.symbol.name() in ("x", "a.x") else np.zeros(shp[0])
         alg = np.concatenate([vals[v.symbol.name()] for v in m.alg_states])
         r = np.array(f(0, ca.DM(), ca.DM(), alg, ca.DM(), ca.DM(), ca.DM())).reshape(-1)
         got = [int(round(np.log2(-x))) + 1 if x < 0 else None for x in r[:cnt]]
@@ -273,9 +276,10 @@ def main():
                     continue
         elif "shape" in m:     # loop harness
             n = max(1, min(int(m.get("n1", 1)), 6))
-            for lo, hi, off in itertools.product(range(-1, n + 2), range(-1, n + 3), (0, 1, -1)):
+            for nested, lo, hi, off in itertools.product((str(m.get("shape", "")).startswith("a."), not str(m.get("shape", "")).startswith("a.")),
+                                                         range(-1, n + 2), range(-1, n + 3), (0, 1, -1)):
                 if hi >= lo:
-                    res = judge_loop(n, lo, hi, off)
+                    res = judge_loop(n, lo, hi, off, nested)
                     if res:
                         break
         else:
@@ -309,7 +313,7 @@ def main():
         failures.append({"class": "assumed-casadi-contract", "input": b, "observed": "CasADi behaves differently from the assumed contract", "expected": "see contracts/C23.py"})
     print(json.dumps({"performed": True, "cases": cases, "distinct_nontrivial": distinct, "failures": failures[:5],
                       "rule": "window sweep through generate(): 1-D n in 1..3 with every int subscript and slice bound in [-2, n+2], steps 1,2(,3); slices whose step is a parameter expression with value -1, -2 or 0; "
-                              "2-D 2x3 with int/slice/whole pairs; for-loops x[i+off] with lo,hi in a window; non-trivial = out-of-range or non-empty selections; "
+                              "2-D 2x3 with int/slice/whole pairs; for-loops x[i+off] and a.x[i+off] (array inside a scalar component) with lo,hi in a window; non-trivial = out-of-range or non-empty selections; "
                               "plus sampling of the assumed MX.__getitem__ contract",
                       "bound": "n <= 3 (1-D), 2x3 (2-D), window +-2"}))
 
@@ -358,11 +362,14 @@ def sweep(tier, limit_first=False):
                 for off in ((0, 1, -1) if tier == "quick" else (0, 1, -1, 2)):
                     cases += 1
                     distinct += 1
-                    r = judge_loop(n, lo, hi, off)
-                    if r:
-                        failures.append(r)
-                        if limit_first:
-                            return failures, cases, distinct
+                    for nested in (False, True):
+                        if nested:
+                            cases += 1
+                        r = judge_loop(n, lo, hi, off, nested)
+                        if r:
+                            failures.append(r)
+                            if limit_first:
+                                return failures, cases, distinct
     return failures, cases, distinct
 
 
